@@ -71,6 +71,15 @@ pub fn m_hash<T: Val, H: Hasher>(a: &T, h: &mut H) { h.write_u8(0xB0); h.write_u
 pub fn m_fmt<T: Val>(a: &T, f: &mut fmt::Formatter<'_>) -> fmt::Result {
     if f.alternate() { write!(f, "M<\n{}\n>", a.v()) } else { write!(f, "M<{}>", a.v()) }
 }
+/// the same user methods behind a longer path with explicit generic arguments (`crate::support::g::m_eq::<0, _>`)
+pub mod g {
+    use super::*;
+    pub fn m_eq<const Z: u8, T: Val>(a: &T, b: &T) -> bool { super::m_eq(a, b) }
+    pub fn m_cmp<const Z: u8, T: Val>(a: &T, b: &T) -> Ordering { super::m_cmp(a, b) }
+    pub fn m_pcmp<const Z: u8, T: Val>(a: &T, b: &T) -> Option<Ordering> { super::m_pcmp(a, b) }
+    pub fn m_hash<const Z: u8, T: Val, H: Hasher>(a: &T, h: &mut H) { super::m_hash(a, h) }
+    pub fn m_fmt<const Z: u8, T: Val>(a: &T, f: &mut fmt::Formatter<'_>) -> fmt::Result { super::m_fmt(a, f) }
+}
 pub fn m_clone<const K: u8>(a: &A<K>) -> A<K> { log(format!("m_clone A{} {}", K, a.0)); A(a.0.wrapping_add(50)) }
 pub fn m_clone_c<const K: u8>(a: &C<K>) -> C<K> { log(format!("m_clone C{} {}", K, a.0)); C(a.0.wrapping_add(50)) }
 pub fn m_into<const K: u8, const J: u8>(a: A<K>) -> B<J> { B(a.0 as u16 + 200 + 1000 * K as u16) }
